@@ -813,6 +813,10 @@ func (f *Fn) LocalDef(id *ast.Ident) ast.Expr {
 			f.defCache[id] = al
 			return al
 		}
+		if al := f.lazyMemoAlias(id, v); al != nil {
+			f.defCache[id] = al
+			return al
+		}
 	}
 	if rhs == nil || idx != 0 {
 		return nil
@@ -1603,4 +1607,192 @@ func (g *Graph) valuesUnder(id *ast.Ident, at Site, cut func(b *Block, k int) bo
 		out = append(out, rhs)
 	}
 	return out, true
+}
+
+// ReachingValue is one definition that can have produced the value of a local at a use.
+type ReachingValue struct {
+	Def Site     // the defining statement
+	Rhs ast.Expr // the assigned expression (nil for x++, range variables, results of a multi-valued call)
+}
+
+// ReachingValues lists the definitions of the local that reach the site (no assumption); ok is false when the function
+// entry reaches the site without a definition.
+func (g *Graph) ReachingValues(id *ast.Ident, at Site) (out []ReachingValue, ok bool) {
+	f := g.Fn
+	obj := f.ObjOf(id)
+	defs, entry := g.ReachingDefsAvoiding(id, at, nil)
+	if entry || obj == nil {
+		return nil, false
+	}
+	for _, d := range defs {
+		rhs, _, tuple, has := f.assignTo(d, obj)
+		if !has || tuple {
+			rhs = nil
+		}
+		sites := g.Find(func(n ast.Node) bool { return n == d })
+		if len(sites) != 1 {
+			return nil, false
+		}
+		out = append(out, ReachingValue{Def: sites[0], Rhs: rhs})
+	}
+	return out, true
+}
+
+// lazyMemoAlias recognises the memoised computation
+//
+//	v, ok := M[K]
+//	if !ok { v = E; M[K] = v }
+//
+// where M is a local map of the function with no other store and E mentions, besides K's variables, only variables
+// that are never assigned again: afterwards v is E (computed now or on an earlier occasion for the same key). The use
+// must lie after the if statement. It returns E or nil.
+func (f *Fn) lazyMemoAlias(id *ast.Ident, v *types.Var) ast.Expr {
+	var lookup, fresh *ast.AssignStmt
+	n := 0
+	ast.Inspect(f.Body, func(nd ast.Node) bool {
+		as, ok := nd.(*ast.AssignStmt)
+		if !ok {
+			return true
+		}
+		for i, l := range as.Lhs {
+			lid, isId := l.(*ast.Ident)
+			if !isId || f.ObjOf(lid) != types.Object(v) {
+				continue
+			}
+			n++
+			switch {
+			case as.Tok == token.DEFINE && len(as.Lhs) == 2 && len(as.Rhs) == 1 && i == 0:
+				if _, isIx := ast.Unparen(as.Rhs[0]).(*ast.IndexExpr); isIx {
+					lookup = as
+				}
+			case as.Tok == token.ASSIGN && len(as.Lhs) == 1 && len(as.Rhs) == 1:
+				fresh = as
+			}
+		}
+		return true
+	})
+	if n != 2 || lookup == nil || fresh == nil || lookup.End() > fresh.Pos() {
+		return nil
+	}
+	ix := ast.Unparen(lookup.Rhs[0]).(*ast.IndexExpr)
+	mid, isId := ast.Unparen(ix.X).(*ast.Ident)
+	if !isId {
+		return nil
+	}
+	mobj, isVar := f.ObjOf(mid).(*types.Var)
+	if !isVar || mobj.IsField() || mobj.Pkg() == nil || mobj.Parent() == mobj.Pkg().Scope() {
+		return nil
+	}
+	if _, isMap := mobj.Type().Underlying().(*types.Map); !isMap {
+		return nil
+	}
+	okID, isOk := lookup.Lhs[1].(*ast.Ident)
+	if !isOk {
+		return nil
+	}
+	okObj := f.ObjOf(okID)
+	ifs, ok := f.Prog.Parent(f.Prog.Parent(fresh)).(*ast.IfStmt)
+	if !ok || ifs.Else != nil || ifs.Init != nil {
+		return nil
+	}
+	ue, isNot := ast.Unparen(ifs.Cond).(*ast.UnaryExpr)
+	if !isNot || ue.Op != token.NOT {
+		return nil
+	}
+	if cid, isCid := ast.Unparen(ue.X).(*ast.Ident); !isCid || f.ObjOf(cid) != okObj || okObj == nil {
+		return nil
+	}
+	// the only store into M (in the whole enclosing declaration, literals included) is M[K] = v in this block
+	stores, good := 0, false
+	var root ast.Node = f.Body
+	if f.Decl != nil {
+		root = f.Decl
+	}
+	for m := f.Prog.Parent(f.Body); m != nil; m = f.Prog.Parent(m) {
+		if fd, isFd := m.(*ast.FuncDecl); isFd {
+			root = fd
+		}
+	}
+	ast.Inspect(root, func(nd ast.Node) bool {
+		switch y := nd.(type) {
+		case *ast.AssignStmt:
+			for i, l := range y.Lhs {
+				lx, isIx := ast.Unparen(l).(*ast.IndexExpr)
+				if isIx {
+					if xi, isXi := ast.Unparen(lx.X).(*ast.Ident); isXi && f.Info().Uses[xi] == types.Object(mobj) {
+						stores++
+						if y.Tok == token.ASSIGN && len(y.Lhs) == 1 && len(y.Rhs) == 1 && i == 0 && y.Pos() > fresh.Pos() && y.End() <= ifs.End() && f.SameExpr(lx.Index, ix.Index) {
+							if rid, isRid := ast.Unparen(y.Rhs[0]).(*ast.Ident); isRid && f.ObjOf(rid) == types.Object(v) {
+								good = true
+							}
+						}
+					}
+				}
+				if li, isLi := ast.Unparen(l).(*ast.Ident); isLi && y.Tok == token.ASSIGN && f.Info().Uses[li] == types.Object(mobj) {
+					stores += 10 // the map itself replaced
+				}
+			}
+		case *ast.CallExpr:
+			if fid, isF := y.Fun.(*ast.Ident); isF && (fid.Name == "delete" || fid.Name == "clear") && len(y.Args) > 0 {
+				if xi, isXi := ast.Unparen(y.Args[0]).(*ast.Ident); isXi && f.Info().Uses[xi] == types.Object(mobj) {
+					stores += 10
+				}
+			}
+		}
+		return true
+	})
+	if stores != 1 || !good || id.Pos() < ifs.End() {
+		return nil
+	}
+	// E depends, besides the key, only on variables that keep their value
+	e := fresh.Rhs[0]
+	stable := true
+	ast.Inspect(e, func(nd ast.Node) bool {
+		x, isX := nd.(*ast.Ident)
+		if !isX {
+			return true
+		}
+		o, isV := f.Info().Uses[x].(*types.Var)
+		if !isV || o.IsField() || o.Pkg() == nil || o.Parent() == o.Pkg().Scope() {
+			return true
+		}
+		inKey := false
+		ast.Inspect(ix.Index, func(k ast.Node) bool {
+			if ki, isKi := k.(*ast.Ident); isKi && f.Info().Uses[ki] == types.Object(o) {
+				inKey = true
+			}
+			return true
+		})
+		if inKey {
+			return true
+		}
+		nAs := 0
+		ast.Inspect(root, func(k ast.Node) bool {
+			switch y := k.(type) {
+			case *ast.AssignStmt:
+				for _, l := range y.Lhs {
+					if li, isLi := ast.Unparen(l).(*ast.Ident); isLi && (f.Info().Uses[li] == types.Object(o) || f.Info().Defs[li] == types.Object(o)) {
+						nAs++
+					}
+				}
+			case *ast.IncDecStmt:
+				if li, isLi := ast.Unparen(y.X).(*ast.Ident); isLi && f.Info().Uses[li] == types.Object(o) {
+					nAs += 2
+				}
+			case *ast.UnaryExpr:
+				if li, isLi := ast.Unparen(y.X).(*ast.Ident); isLi && y.Op == token.AND && f.Info().Uses[li] == types.Object(o) {
+					nAs += 2
+				}
+			}
+			return true
+		})
+		if nAs > 1 {
+			stable = false
+		}
+		return true
+	})
+	if !stable {
+		return nil
+	}
+	return e
 }
